@@ -54,6 +54,15 @@ class Owner(Symbol):
 @dataclass(eq=False)
 class Elem(Symbol):
     pass
+
+
+@dataclass
+class Named(Symbol):
+    """value-equal but distinct objects (dataclass equality), as the dataset's Company/Person are"""
+    name: str = ""
+
+    def __hash__(self):
+        return hash(self.name)
 '''
 
 
@@ -89,6 +98,9 @@ def setup(vm, kind):
     vm.spec.stubs["PropertyDescriptorRelation.__call__"] = relation_ctor
     owner = vm.alloc(Owner, {}, tag="owner")
     elems = {n: vm.alloc(Elem, {}, tag=n) for n in ("e1", "e2", "a", "b", "c")}
+    Named = cls(vm, "pyvc_synth_c16", "Named")
+    elems["n1"] = vm.alloc(Named, {"name": "same"}, tag="n1")
+    elems["n1_twin"] = vm.alloc(Named, {"name": "same"}, tag="n1_twin")
     return owner, elems, rel, desc
 
 
@@ -129,6 +141,12 @@ LIST_OPS = [
     ("insert-middle", "owner.items.insert(1, a)", lambda c, E: list(c[:1]) + [E["a"]] + list(c[1:]), lambda c, E: [E["a"]]),
     ("setitem", "owner.items[0] = a", lambda c, E: [E["a"]] + list(c[1:]), lambda c, E: [E["a"]]),
     ("setitem-last", "owner.items[-1] = b", lambda c, E: list(c[:-1]) + [E["b"]], lambda c, E: [E["b"]]),
+    ("extend-generator", "owner.items.extend(x for x in [a, b])", lambda c, E: list(c) + [E["a"], E["b"]], lambda c, E: [E["a"], E["b"]]),
+    ("extend-iterator", "owner.items.extend(iter([a]))", lambda c, E: list(c) + [E["a"]], lambda c, E: [E["a"]]),
+    ("iadd-generator", "owner.items += (x for x in [a])", lambda c, E: list(c) + [E["a"]], lambda c, E: [E["a"]]),
+    ("append-twin", "owner.items.append(n1); owner.items.append(n1_twin)", lambda c, E: list(c) + [E["n1"], E["n1_twin"]], lambda c, E: [E["n1"], E["n1_twin"]]),
+    ("setitem-twin", "owner.items.append(n1); owner.items[-1] = n1_twin", lambda c, E: list(c) + [E["n1_twin"]], lambda c, E: [E["n1_twin"]]),
+    ("insert-twin", "owner.items.append(n1); owner.items.insert(0, n1_twin)", lambda c, E: [E["n1_twin"]] + list(c) + [E["n1"]], lambda c, E: [E["n1_twin"]]),
 ]
 SET_OPS = [
     ("assign-empty", "owner.items = set()", lambda c, E: [], lambda c, E: []),
@@ -141,6 +159,8 @@ SET_OPS = [
     ("add-existing", "owner.items.add(e1)", lambda c, E: list(c) + [E["e1"]], lambda c, E: []),
     ("update", "owner.items.update({a, b})", lambda c, E: list(c) + [E["a"], E["b"]], lambda c, E: [E["a"], E["b"]]),
     ("update-list", "owner.items.update([a, a, e2])", lambda c, E: list(c) + [E["a"], E["e2"]], lambda c, E: [E["a"]]),
+    ("update-generator", "owner.items.update(x for x in [a, b])", lambda c, E: list(c) + [E["a"], E["b"]], lambda c, E: [E["a"], E["b"]]),
+    ("ior-iterator-set", "owner.items |= set(iter([a]))", lambda c, E: list(c) + [E["a"]], lambda c, E: [E["a"]]),
 ]
 INITIALS = {"empty": [], "one": ["e1"], "two": ["e1", "e2"]}
 
